@@ -143,6 +143,7 @@ def channels(T, v, eq=None):
     handler = get_registered_type(T)
     ser = handler.serializer(v)
     res["ser"] = ser if isinstance(ser, str) else repr(ser)
+    res["ser_type"] = type(ser).__name__
     try:
         dump = p.dump(Namespace(k=v))
         res["dump"] = dump
@@ -155,6 +156,7 @@ def channels(T, v, eq=None):
         ("argv", lambda: p.parse_args(["--k=" + res["ser"]]).k),
         ("file", lambda: parse_file(p, dump)),
         ("json", lambda: p.parse_string(p.dump(Namespace(k=v), format="json")).k),
+        ("object", lambda: p.parse_object({"k": v}).k),  # a value of the type passes the registered-type branch unchanged
     ):
         try:
             c = fn()
@@ -187,7 +189,7 @@ def run_range(case):
         res["back"] = [str(back.start), str(back.stop), str(back.step)]
     except ValueError:
         res["back"] = None
-    res["chan_ok"] = all(res.get(k) is True for k in ("string", "argv", "file", "json"))
+    res["chan_ok"] = all(res.get(k) is True for k in ("string", "argv", "file", "json", "object"))
     return res
 
 
@@ -214,7 +216,7 @@ def run_td(case):
     td = timedelta(microseconds=1) * int(case["total"])
     res, _ = channels(timedelta, td)
     res.update(run_tddes({"value": {"s": res["ser"]}}))
-    res["chan_ok"] = all(res.get(k) is True for k in ("string", "argv", "file", "json"))
+    res["chan_ok"] = all(res.get(k) is True for k in ("string", "argv", "file", "json", "object"))
     return res
 
 
@@ -241,7 +243,10 @@ def run_secret(case):
     out = {"ser": h.serializer(v)}
     texts = []
     cfg = p.parse_args(["--k=" + s])
-    out["parsed_ok"] = type(cfg.k) is SecretStr and cfg.k.get_secret_value() == s
+    # informative only (the property does not say what --k=null or --k=[1] must give for a secret)
+    out["argv_kept"] = type(cfg.k) is SecretStr and cfg.k.get_secret_value() == s
+    same = p.parse_object({"k": v}).k  # a SecretStr passes the registered-type branch unchanged
+    out["parsed_ok"] = bool(type(same) is SecretStr and same.get_secret_value() == s)
     for c in (Namespace(k=v), cfg):
         texts.append(p.dump(c))
         texts.append(p.dump(c, format="json"))
@@ -270,11 +275,17 @@ def run_decimal(case):
     assert dec_tuple(d) == [str(int(case["mant"])), int(case["exp"])] or int(case["mant"]) == 0, (dec_tuple(d), case)
     res, vals = channels(Decimal, d)
     x = float(d)
-    n, den = x.as_integer_ratio()
-    e2 = -(den.bit_length() - 1)
-    res["dbl"] = [str(n), e2]
-    res["text"] = dec_tuple(Decimal(repr(x)))
-    res["file_equal"] = bool(res.get("string") is True and res.get("file") is True)
+    if x in (float("inf"), float("-inf")):
+        res["dbl"] = res["text"] = None
+    else:
+        n, den = x.as_integer_ratio()
+        e2 = -(den.bit_length() - 1)
+        res["dbl"] = [str(n), e2]
+        res["text"] = dec_tuple(Decimal(repr(x)))
+    res["ser_float"] = res["ser_type"] == "float"
+    if res["ser_type"] not in ("float", "str"):
+        return {"crash": "serializer returned " + res["ser_type"]}
+    res["file_equal"] = bool(res.get("string") is True and res.get("file") is True and res.get("object") is True)
     res["argv_equal"] = bool(res.get("argv") is True)
     res["json_equal"] = bool(res.get("json") is True)
     return res
@@ -301,7 +312,7 @@ def run_builtin(case):
     else:
         raise SystemExit("unknown builtin " + t)
     res, _ = channels(T, v, eq)
-    res["all_equal"] = all(res.get(k) is True for k in ("string", "argv", "file", "json"))
+    res["all_equal"] = all(res.get(k) is True for k in ("string", "argv", "file", "json", "object"))
     return res
 
 
